@@ -9,7 +9,8 @@ EXTENDS Integers, Sequences, FiniteSets, TLC, Json
 
 CONSTANTS Family, NRandom
 
-TextAtoms == {"t_empty", "t_a", "t_quote", "t_bslash", "t_lf", "t_ctl", "t_emoji", "t_script", "t_ls", "t_kctl"}
+TextAtoms == {"t_empty", "t_a", "t_quote", "t_bslash", "t_lf", "t_ctl", "t_emoji", "t_script", "t_ls", "t_kctl", "t_uesc", "t_nesc"}
+\* t_uesc / t_nesc: texts that LOOK like JSON escapes - a backslash followed by u003c, by n, by a quote, by u0041
 NumAtoms == {"n_0", "n_m1", "n_1p5", "n_1e21", "n_2p53"}
 OtherAtoms == {"true", "false", "null"}
 Atoms == TextAtoms \cup NumAtoms \cup OtherAtoms
